@@ -43,6 +43,10 @@ def pipeline_jobs(ctx, n):
                        {"split": 0, "repeat": False, "shuffle": 0, "file_parallelism": 2}]
             ops = [["P", 0], ["P", 1]] + [["P", 0]] * 40 + [["P", 2], ["P", 1]] * 40
             reqs.append({"iface": iface, "split": 0, "shuffle": 0, "repeat": False, "file_parallelism": 2, "multi": {"streams": streams, "ops": ops}})
+            # a half-consumed ordered pass, then a freshly created SHUFFLED pass over the same split, then both to their ends
+            streams2 = [{"split": 0, "repeat": False, "shuffle": 0, "file_parallelism": 2}, {"split": 0, "repeat": False, "shuffle": rng.choice([3, 50]), "file_parallelism": 2}]
+            reqs.append({"iface": iface, "split": 0, "shuffle": 0, "repeat": False, "file_parallelism": 2,
+                         "multi": {"streams": streams2, "ops": [["P", 0], ["P", 0], ["P", 1], ["P", 1]] + [["P", 0], ["P", 1]] * 40}})
         jobs.append({"dataset": spec, "requests": reqs})
     # the description's examples_per_shard is lowered between two sessions (public setter): the first shards hold more examples than it says
     Wr = ["W", 0, None, True]
@@ -148,12 +152,16 @@ def run(ctx):
                     got = [a for (k, i), a in zip(q["multi"]["ops"], o["out"]) if i == si and k == "P"]
                     vals = [a for a in got if not isinstance(a, str)]
                     errs = [a for a in got if isinstance(a, str) and a.startswith("error")]
-                    if errs and vals == rs["seq"]:
+                    if st.get("shuffle"):
+                        vals, want_seq = sorted(vals), sorted(rs["seq"])
+                    else:
+                        want_seq = rs["seq"]
+                    if errs and vals == want_seq:
                         # the pass handed over exactly its split and then ended with an exception instead of a normal end (TensorFlow's device
                         # scope of the tfrec branch does not nest across interleaved generators): outside what C02 states, recorded only
                         trailing_errors[0] += 1
                         continue
-                    if vals != rs["seq"]:
+                    if vals != want_seq:
                         missing = sorted(set(rs["seq"]) - set(vals))
                         foreign = sorted(set(vals) - set(rs["seq"]))
                         sig = "examples-lost" if missing else "examples-foreign" if foreign else "examples-duplicated"
@@ -254,7 +262,7 @@ def replay(ctx, rp):
             got = [a for (k, i), a in zip(q["multi"]["ops"], o["out"]) if i == si and k == "P"]
             vals = [a for a in got if not isinstance(a, str)]
             print(json.dumps({"pass": si, "split": st["split"], "got": vals, "expected": rs["seq"], "errors": [a for a in got if isinstance(a, str) and a.startswith("error")][:2]})[:600])
-            ok = ok and vals == rs["seq"]
+            ok = ok and (sorted(vals) == sorted(rs["seq"]) if st.get("shuffle") else vals == rs["seq"])
         return ok
     ref = r["reference"].get(str(q["split"]), {"seq": []})
     got = [x - 100000 for x in o.get("out", [])] if q.get("process") else o.get("out", [])
